@@ -288,6 +288,36 @@ pub fn par_case(rng: &mut Rng, max_samples: usize) -> Case {
     c
 }
 
+/// More than 1024 (often more than 2048) frames: 2- and 3-byte frame numbers, STREAMINFO extremes
+/// set by late frames (amplitude ramps up or down over the stream), long runs of the hash queue.
+pub fn manyframes_case(rng: &mut Rng) -> Case {
+    let block = *rng.pick(&[32usize, 32, 33, 48, 64]);
+    let frames = *rng.pick(&[1030usize, 1100, 1500, 2047, 2048, 2050, 2600]);
+    let channels = *rng.pick(&[1usize, 1, 2]);
+    let bps = *rng.pick(&gen::WIDTHS);
+    let len = frames * block + if rng.flip() { rng.usize_below(block) } else { 0 };
+    let up = rng.flip();
+    let full = gen::smax(bps) as f64;
+    let mut samples = vec![0i32; len * channels];
+    for t in 0..len {
+        let pos = t as f64 / len as f64;
+        let env = if up { pos } else { 1.0 - pos };
+        for c in 0..channels {
+            samples[t * channels + c] = (full * env * env * (rng.f64() * 2.0 - 1.0)) as i32;
+        }
+    }
+    let mut cfg = gen::gen_config(rng, &ConfigOpts { multithread: None, min_max_parameter: 8 });
+    cfg.block_size = block;
+    cfg.subframe_coding.qlpc.lpc_order = cfg.subframe_coding.qlpc.lpc_order.min(8);
+    Case {
+        audio: Arc::new(Audio { channels, bps, rate: 44100, samples, recipe: format!("ramp_{}_noise {frames} frames", if up { "up" } else { "down" }) }),
+        cfg,
+        block,
+        mode: if rng.flip() { FillMode::Int } else { FillMode::Bytes },
+        hint: rng.flip(),
+    }
+}
+
 pub fn std_subs(ctx: &Ctx, scale_q: u64, scale_t: u64) -> Vec<Sub> {
     let n = |q: u64, t: u64| ctx.tier.pick(q * scale_q / 100, t * scale_t / 100).max(1);
     let big = ctx.tier.pick(30_000, 120_000);
@@ -299,6 +329,7 @@ pub fn std_subs(ctx: &Ctx, scale_q: u64, scale_t: u64) -> Vec<Sub> {
         Sub { name: "rice", n: n(200, 10_000), gen: Box::new(|r| rice_case(r, 40_000)) },
         Sub { name: "par", n: n(300, 15_000), gen: Box::new(|r| par_case(r, 6000)) },
         Sub { name: "large", n: n(12, 300), gen: Box::new(|r| gen_case(r, &Limits { max_samples: 300_000, max_blocks: 2, ..Limits::default() })) },
+        Sub { name: "manyframes", n: n(16, 300), gen: Box::new(manyframes_case) },
     ]
 }
 
@@ -472,7 +503,7 @@ pub fn run_c04(ctx: &Ctx) -> i32 {
         let rate = gen::pick_rate(&mut rng);
         let audio = gen::gen_audio(&mut rng, channels, bps, rate, len);
         let mut cfg = gen::gen_config(&mut rng, &ConfigOpts::default());
-        cfg.block_size = b;
+        cfg.block_size = if rng.chance(1, 4) { *rng.pick(&[32usize, 4096, 1152, 32767]) } else { b };
         let case = Case { audio: Arc::new(audio), cfg, block: b, mode: if rng.flip() { FillMode::Int } else { FillMode::Bytes }, hint: rng.flip() };
         match observe(&case) {
             Ok(obs) => {
